@@ -757,3 +757,29 @@ package evaluator
 //@   ensures failure: result1 != nil ==> result0 == nil
 //@   loop 1
 //@     invariant bldOk(b) || true
+
+//@ func sortByNumber.Swap
+//@   assigns elems:s.items, elems:s.by
+//@ func sortByString.Swap
+//@   assigns elems:s.items, elems:s.by
+
+// the arrays handed to package sort are owned by the call: sorting never touches the caller's data (C06, C07)
+//@ func evaluator.sortArrayBy
+//@   at Sort#* assert[C06 C07 C13] owned: fresh(r.items) && fresh(r.by) && len(r.items) == len(r.by)
+//@   loop 1
+//@     invariant fresh(by) && len(by) == len(a)
+//@   loop 2
+//@     invariant fresh(by) && len(by) == len(a)
+
+//@ func flatten
+//@   tags C01 C03 C06
+//@   ensures nonarray: !isArr(v) ==> result == nil
+//@   ensures kind: isArr(v) ==> isArr(result) && fresh(arr(result))
+//@   ensures[C01] nonnull: isArr(v) ==> (forall k Int :: 0 <= k && k < len(arr(result)) ==> arr(result)[k] != nil)
+//@   loop 1
+//@     invariant fresh(r) && (forall k Int :: 0 <= k && k < len(r) ==> r[k] != nil)
+//@   loop 2
+//@     invariant fresh(r) && (forall k Int :: 0 <= k && k < len(r) ==> r[k] != nil)
+
+//@ func toInt
+//@   note depth-bounded: the only recursive call passes a decimal128.Decimal, whose case does not recurse
